@@ -39,14 +39,14 @@ Section Pw.
         end
     | SetPw _ u _ p =>
         match strength C strong p, aget N.eqb u (a_users a) with
-        | Some 0%N, Some _ => {| a_users := a_users a; a_pw := aput N.eqb u (Known p) (a_pw a); a_nextu := a_nextu a |}
+        | 0%N, Some _ => {| a_users := a_users a; a_pw := aput N.eqb u (Known p) (a_pw a); a_nextu := a_nextu a |}
         | _, _ => a
         end
     | CmpPw _ _ _ => a
     | CasPw _ u _ old new =>
         if acheck a u old then
           match strength C strong new with
-          | Some 0%N => {| a_users := a_users a; a_pw := aput N.eqb u (Known new) (a_pw a); a_nextu := a_nextu a |}
+          | 0%N => {| a_users := a_users a; a_pw := aput N.eqb u (Known new) (a_pw a); a_nextu := a_nextu a |}
           | _ => a
           end
         else a
@@ -99,13 +99,11 @@ Section Pw.
     R (fst (set_password C st u salt p)) (apstep (strong C st) a (SetPw C u salt p)).
   Proof.
     intros HR. pose proof HR as [HU [HN HP]]. unfold set_password. simpl.
-    destruct (strength C (strong C st) p) as [e|]; [|exact HR].
-    destruct (N.eqb e 0) eqn:E0.
-    - apply N.eqb_eq in E0. subst e. simpl. rewrite <- HU.
-      destruct (aget N.eqb u (users C st)); [|exact HR].
-      simpl. split; [|split]; auto. simpl.
-      apply cred_rel_put; auto. intro q. simpl. apply (ok_pverify C HC).
-    - simpl. destruct e; [discriminate|]. exact HR.
+    destruct (strength C (strong C st) p) as [|e]; simpl; [|exact HR].
+    rewrite <- HU.
+    destruct (aget N.eqb u (users C st)); [|exact HR].
+    simpl. split; [|split]; auto. simpl.
+    apply cred_rel_put; auto. intro q. simpl. apply (ok_pverify C HC).
   Qed.
 
   Lemma strong_step st o : strong C (fst (pstep C st o)) = strong C st.
@@ -113,11 +111,11 @@ Section Pw.
     destruct o; simpl; auto.
     - destruct (aget N.eqb u (users C st)); reflexivity.
     - destruct (aget N.eqb u (users C st)); reflexivity.
-    - unfold set_password. destruct (strength C (strong C st) p) as [e|]; auto.
-      destruct (negb (N.eqb e 0)); auto. destruct (aget N.eqb u (users C st)); reflexivity.
+    - unfold set_password.
+      destruct (negb (N.eqb (strength C (strong C st) p) 0)); auto. destruct (aget N.eqb u (users C st)); reflexivity.
     - unfold cas_password. destruct (negb (N.eqb (compare_nocheck C st u old) 0)); auto.
-      unfold set_password. destruct (strength C (strong C st) new) as [e|]; auto.
-      destruct (negb (N.eqb e 0)); auto. destruct (aget N.eqb u (users C st)); reflexivity.
+      unfold set_password.
+      destruct (negb (N.eqb (strength C (strong C st) new) 0)); auto. destruct (aget N.eqb u (users C st)); reflexivity.
   Qed.
 
   Lemma step_R st a o : R st a -> R (fst (pstep C st o)) (apstep (strong C st) a o).
@@ -139,7 +137,7 @@ Section Pw.
       destruct (acheck a u old) eqn:EA.
       + simpl. pose proof (set_password_R st a u salt new HR) as X. simpl in X.
         unfold acheck in EA. destruct (aget N.eqb u (a_users a)) eqn:EU; [|discriminate].
-        destruct (strength C (strong C st) new) as [[|e]|] eqn:ES; exact X.
+        destruct (strength C (strong C st) new) as [|e] eqn:ES; exact X.
       + destruct (aget N.eqb u (a_users a)); simpl; exact HR.
     - (* PutPwRaw *) split; [|split]; auto. simpl. apply cred_rel_put; auto.
   Qed.
@@ -160,41 +158,87 @@ Section Pw.
   Theorem compare_after_history sp ops u q :
     compare_password C (prun ops (pinit sp)) u q =
       let a := aprun sp ops ainit in
-      match strength C sp q with
-      | None => 64%N
-      | Some e =>
-          if acheck a u q then (if N.eqb e 0 then 0%N else 16 + e)%N
-          else match aget N.eqb u (a_users a) with None => 1%N | Some _ => 2%N end
-      end.
+      let e := strength C sp q in
+      if acheck a u q then (if N.eqb e 0 then 0%N else 16 + e)%N
+      else match aget N.eqb u (a_users a) with None => 1%N | Some _ => 2%N end.
   Proof.
     pose proof (run_R ops (pinit sp) ainit (R_init sp)) as HR. simpl in HR.
     unfold compare_password. rewrite (compare_nocheck_R _ _ u q HR), strong_run. simpl.
-    destruct (strength C sp q) as [e|]; [|reflexivity].
     destruct (acheck (aprun sp ops ainit) u q).
-    - simpl. destruct (N.eqb e 0); reflexivity.
+    - simpl. destruct (N.eqb (strength C sp q) 0); reflexivity.
     - destruct (aget N.eqb u (a_users (aprun sp ops ainit))); reflexivity.
   Qed.
 
   Theorem password_only_latest sp ops u q :
     compare_password C (prun ops (pinit sp)) u q = 0%N <->
-    (acheck (aprun sp ops ainit) u q = true /\ strength C sp q = Some 0%N).
+    (acheck (aprun sp ops ainit) u q = true /\ strength C sp q = 0%N).
   Proof.
     rewrite compare_after_history. simpl.
-    destruct (strength C sp q) as [e|].
-    - destruct (acheck (aprun sp ops ainit) u q).
-      + destruct (N.eqb e 0) eqn:E.
-        * apply N.eqb_eq in E. subst. split; auto.
-        * split; [intro H; destruct e; discriminate|]. intros [_ H]. inversion H. subst. discriminate.
-      + split; [|intros [H _]; discriminate].
-        destruct (aget N.eqb u (a_users (aprun sp ops ainit))); discriminate.
-    - split; [discriminate|]. intros [_ H]; discriminate.
+    destruct (acheck (aprun sp ops ainit) u q).
+    - destruct (N.eqb (strength C sp q) 0) eqn:E.
+      + apply N.eqb_eq in E. split; auto.
+      + apply N.eqb_neq in E. split; [intro H; destruct (strength C sp q); discriminate|].
+        intros [_ H]. contradiction.
+    - split; [|intros [H _]; discriminate].
+      destruct (aget N.eqb u (a_users (aprun sp ops ainit))); discriminate.
+  Qed.
+
+  (** password operations are total in the model and never report the panic class; the empty
+      password is rejected with exactly the length error, with or without strength checking *)
+  Lemma strength_empty sp p : slen C p = 0%N -> strength C sp p = 4%N.
+  Proof. intro E. unfold strength. rewrite E. simpl. rewrite andb_false_r. reflexivity. Qed.
+
+  Theorem empty_password_rejected st u salt p :
+    slen C p = 0%N ->
+    set_password C st u salt p = (st, 4%N) /\
+    compare_password C st u p <> 0%N /\ compare_password C st u p <> 64%N /\
+    (forall old, snd (cas_password C st u salt old p) <> 0%N /\ fst (cas_password C st u salt old p) = st).
+  Proof.
+    intro E. pose proof (strength_empty (strong C st) p E) as S4.
+    assert (set_password C st u salt p = (st, 4%N)) as SP by (unfold set_password; rewrite S4; reflexivity).
+    split; [exact SP|]. unfold compare_password. rewrite S4.
+    split; [|split].
+    - destruct (N.eqb (compare_nocheck C st u p) 0) eqn:X; simpl; [discriminate|].
+      apply N.eqb_neq in X. exact X.
+    - destruct (N.eqb (compare_nocheck C st u p) 0) eqn:X; simpl; [discriminate|].
+      unfold compare_nocheck. destruct (aget N.eqb u (users C st)); [|discriminate].
+      destruct (aget N.eqb u (pws C st)); [|discriminate]. destruct (pverify C s p); discriminate.
+    - intro old. unfold cas_password.
+      destruct (negb (N.eqb (compare_nocheck C st u old) 0)) eqn:X; simpl.
+      + split; auto. apply negb_true_iff in X. apply N.eqb_neq in X. exact X.
+      + rewrite SP. simpl. split; [discriminate|reflexivity].
+  Qed.
+
+  (** no result of a password operation is the panic class *)
+  Theorem password_ops_never_panic st o : snd (pstep C st o) <> 64%N.
+  Proof.
+    assert (forall sp p, strength C sp p <> 64%N /\ (16 + strength C sp p)%N <> 64%N) as SB.
+    { intros sp p. unfold strength.
+      destruct (N.ltb (slen C p) 8 || N.ltb 72 (slen C p))%bool;
+        destruct (sp && negb (N.eqb (slen C p) 0))%bool;
+        destruct (N.ltb (scls C p) 3); cbv; split; discriminate. }
+    assert (forall u p, compare_nocheck C st u p <> 64%N) as CB.
+    { intros u p. unfold compare_nocheck. destruct (aget N.eqb u (users C st)); [|discriminate].
+      destruct (aget N.eqb u (pws C st)); [|discriminate]. destruct (pverify C s p); discriminate. }
+    assert (forall u salt p, snd (set_password C st u salt p) <> 64%N) as PB.
+    { intros u salt p. unfold set_password.
+      destruct (negb (N.eqb (strength C (strong C st) p) 0)); simpl; [apply SB|].
+      destruct (aget N.eqb u (users C st)); discriminate. }
+    destruct o; simpl; try discriminate.
+    - destruct (aget N.eqb u (users C st)); discriminate.
+    - destruct (aget N.eqb u (users C st)); discriminate.
+    - apply PB.
+    - unfold compare_password.
+      destruct (N.eqb (compare_nocheck C st u p) 0 && negb (N.eqb (strength C (strong C st) p) 0))%bool;
+        [apply SB|apply CB].
+    - unfold cas_password. destruct (negb (N.eqb (compare_nocheck C st u old) 0)); simpl; [apply CB|apply PB].
   Qed.
 
   (** a failed SetPassword / CompareAndSetPassword changes nothing *)
   Lemma set_password_fail st u salt p : snd (set_password C st u salt p) <> 0%N -> fst (set_password C st u salt p) = st.
   Proof.
-    unfold set_password. destruct (strength C (strong C st) p) as [e|]; auto.
-    destruct (negb (N.eqb e 0)); auto. destruct (aget N.eqb u (users C st)); auto.
+    unfold set_password.
+    destruct (negb (N.eqb (strength C (strong C st) p) 0)); auto. destruct (aget N.eqb u (users C st)); auto.
     simpl. intro H; exfalso; apply H; reflexivity.
   Qed.
 
